@@ -408,7 +408,9 @@ def sym_iterable_loader_naming(vc):
             dp.attrs['resources'] = Opaque('reslist', 'resources')
             dp.attrs['resources'].attrs['__len__'] = n
             it.loops['iterable_loader.process_datapackage#L0'] = LoopSpec(inv=lambda it_, env: term(env.lookup('index'), IntS) >= n + 1)
-            it.call(it.lib.getattr_(it, il, 'process_datapackage'), [dp])
+            out_dp = it.call(it.lib.getattr_(it, il, 'process_datapackage'), [dp])
+            # (the base class continues with what the package phase RETURNS)
+            check(it, 'package-phase-returns-the-package[%d existing]' % n, out_dp is dp)
             nm = made['desc'].d['name'] if 'desc' in made else None
             check(it, 'auto-name-differs-from-every-existing-resource-name[%d existing]' % n,
                   nm is not None and z3.And(*([term(x, StrS) != term(nm, StrS) for x in names] or [z3.BoolVal(True)])))
